@@ -1,5 +1,6 @@
 """Runs in a FRESH interpreter with the default recursion limit:
 stdin: JSON {"repo":..., "src":..., "cfg":[u,w,s]} ; stdout: JSON {"stage":..., "err":..., "result":...}
+(or {"repo":..., "batch":[{"src":..., "cfg":...}, ...]} -> {"stage":"batch", "results":[...]})
 stages: source (CPython cannot compile/run the source itself), convert, compile, eval, compare, ok"""
 import json
 import sys
@@ -8,7 +9,14 @@ import sys
 def main():
     job = json.load(sys.stdin)
     sys.path.insert(0, job["repo"])
-    src = job["src"]
+    if "batch" in job:
+        # many small probes in one fresh interpreter (dense size sweeps)
+        return {"stage": "batch", "results": [one(j["src"], j["cfg"]) for j in job["batch"]]}
+    return one(job["src"], job["cfg"])
+
+
+def one(src, cfg):
+    job = {"cfg": cfg}
     out = {"stage": "ok", "err": None}
     try:
         code = compile(src, "<src>", "exec")
